@@ -347,6 +347,7 @@ type clientOpts struct {
 	partial  bool          // before leaving, send the first half of one more request (the server is mid-read when the client goes)
 	unread   bool          // before leaving, send one more complete request and do not read its response
 	deadline time.Duration // overall deadline of the session (default 15s)
+	h2cancel bool          // HTTP/2: after the requests, open one more stream and cancel it with RST_STREAM
 }
 
 func rstClose(c net.Conn) {
@@ -456,6 +457,13 @@ func (s *Scenario) run(kind string, raw net.Conn, id string, o clientOpts) (stri
 			if err := hc.WaitStreams(sid); err != nil {
 				return id, err
 			}
+		}
+		if o.h2cancel {
+			sid := uint32(1 + 2*o.requests)
+			blk := h2raw.Block([]h2raw.HF{{":method", "POST"}, {":scheme", "https"}, {":authority", "vf.test"}, {":path", "/" + id}, {"x-vf-tag", id}})
+			tc.Write(h2raw.Headers(sid, false, blk, nil, 0))
+			time.Sleep(20 * time.Millisecond)
+			tc.Write(h2raw.RST(sid, 8))
 		}
 	} else {
 		br := newBR(tc)
